@@ -130,8 +130,14 @@ def examine(ctx, recipe, items) -> None:
     var = next((n for n, i in built.vars.items() if i.kind == 'face' and 'k' in i.dims), None)
     for _ in range(3):
         path = make_path(rng, xs, ys)
-        line = shapely.LineString([(float(x), float(y)) for x, y in path])
-        desc = {'recipe': recipe, 'path': [[str(x), str(y)] for x, y in path]}
+        # a track may carry a third ordinate (altitude of the instrument, say): the cells are two-dimensional and the
+        # path's position over them does not depend on it
+        zs = [rng.choice([0, 10, 900, -50]) for _ in path] if rng.random() < 0.3 else None
+        if zs is None:
+            line = shapely.LineString([(float(x), float(y)) for x, y in path])
+        else:
+            line = shapely.LineString([(float(x), float(y), float(z)) for (x, y), z in zip(path, zs)])
+        desc = {'recipe': recipe, 'path': [[str(x), str(y)] for x, y in path], 'z': zs}
         # ---- ground truth pieces (exact) -------------------------------------------------------------
         truth = []
         for n, q in enumerate(kept):
@@ -217,6 +223,14 @@ def examine(ctx, recipe, items) -> None:
             ctx.evaluated()
             if gotv.shape != want.shape or not np.array_equal(gotv, want, equal_nan=True):
                 ctx.oracle_fail('transect-data-not-of-its-cell', {**desc, 'var': var}, 'prepared data columns are not the values of the segments\' cells')
+            # the same Transect asked again for another array of the same name and shape (another time step, an
+            # anomaly): the answer is about the array that was passed, not about the first one
+            da2 = (da + 5000).rename(da.name)
+            got2 = np.asarray(t.prepare_data_array_for_transect(da2).values)
+            ctx.evaluated()
+            if got2.shape != want.shape or not np.array_equal(got2, want + 5000, equal_nan=True):
+                ctx.oracle_fail('transect-data-of-an-earlier-array', {**desc, 'var': var},
+                                'a second array of the same name prepared on the same Transect came back with other values than its own')
             layers = ';'.join(','.join(str(int(v)) for v in row) for row in np.asarray(flat.transpose(kdim, flat.dims[-1]).values))
             cl = f"columns {layers} {','.join(str(g[0]) for g in got)}"
             items.append((cl, ';'.join(','.join(str(int(v)) for v in row) for row in gotv), {**desc, 'op': cl}))
